@@ -1,5 +1,6 @@
 import EinxModel.Proofs.NotationSpace
 import EinxModel.Proofs.NotationPrintFinal
+import EinxModel.Proofs.NotationNFFinal
 /-!
 # C12 — the expression parser is total and stable under re-printing and extra spacing
 
@@ -318,6 +319,9 @@ theorem non_redundant_slots_change_result :
 
 /-! ## (d) Re-printing -/
 
+/-- The result is a tree. -/
+def isOkRes (r : Res Expr) : Bool := match r with | .ok _ => true | .error _ => false
+
 /-- Parse `s`, print the tree, parse the printed text: does the structure (positions, fresh names, ellipsis ids erased) survive? -/
 def roundTrips (s : String) : Bool :=
   match parseOp s.toList with
@@ -360,20 +364,19 @@ Proved: the statement for every tree that satisfies the decidable predicate `Pri
   and a `FlattenedAxis` directly over a `ConcatenatedAxis` (printed `((a + b))`, re-parsed without the outer parentheses);
   i.e. `Op` of one or two `Args`; below them named axes with a valid name, numeric axes, `FlattenedAxis` (not over a
   `FlattenedAxis`/`ConcatenatedAxis`), `Brackets` (not nested, not empty), `Ellipsis` over the anonymous axis or over one
-  axis / flattened axis / brackets / concatenation, `ConcatenatedAxis` of ≥ 2 axes or flattened axes, `List`s of 0 or ≥ 2
+  axis / flattened axis / brackets / concatenation / `...`, `ConcatenatedAxis` of ≥ 2 axes or flattened axes, `List`s of 0 or ≥ 2
   non-list children; concatenations and ellipses ARE covered;
-* two restrictions of the proof, not of the truth (both kinds of tree do round-trip, see `printable_restrictions`):
-  no numeric axis inside brackets (the proof that the fresh names of two numeric axes of the re-parsed tree differ — needed
-  for the inconsistent-brackets check — is missing), and the printed text has no two adjacent spaces (it has them only
-  when the left side of `->` ends with an empty argument, `"a,  -> b"`; the duplicate-space pass is not modelled in the
-  proof);
 * `t` itself passes the inconsistent-brackets check.
-Missing for the statement about the image of `parse_op`: a proof that every result of `parseOp` without the three patterns
-satisfies `PRoot` (normal form of the parser's output; checked by `printable_image_samples` and, during development, on
-all 177155 texts of ≤ 5 symbols).
+There are no further restrictions.  Two restrictions of an earlier version of the proof are lifted: numeric axes may stand inside
+brackets (the fresh names `unnamed.<token position>` of the re-parsed tree are pairwise distinct — `Fresh.parse_fresh_nodup`:
+lexer positions strictly increase, the duplicate-space pass and the delimiter stack keep the order, `parse` uses every token at
+most once — so the inconsistent-brackets check cannot fire on them, `Fresh.fresh_unique`), and the printed text may contain two
+adjacent spaces (it does exactly when the left side of `->` ends with an empty argument, `"a,  -> b"`, `Adj.root_adj`; the
+duplicate-space pass drops one of them, `Adj.dedup_one`, and `parse` strips the other, `parse_printed_adj`).
+That every result of `parseOp` without the three patterns satisfies `Printable` is `parse_printable` below.
 
 Layers (Proofs/): `textsOK_PRoot` (the printed text is the concatenation of well separated token texts),
-`segment_pieces`/`lex_pieces` (lexer), `dedup_no_adj`, `buildTree_texts` (delimiter stack), `parse_printed` (`parse`
+`segment_pieces`/`lex_pieces` (lexer), `dedup_no_adj`/`Adj.dedup_one` (duplicate-space pass), `buildTree_texts` (delimiter stack), `parse_printed` (`parse`
 inverts every printing rule: axis, number, parentheses, brackets, `...`, ` + `, ` `, `, `, ` -> `), `finish_nf` (the passes
 after `parse` only add the `Op`/`Args` wrappers on a normal form), `conflict_free_of_shape` (the bracket check). -/
 
@@ -398,12 +401,13 @@ theorem printable_image_samples :
       "a ->", ", a", "", "a... b", "[a...]", "(a b)...", "... a", "(a + 1)... [b]... 2", "a (b (c d)) -> , ()"].all printableOf) = true := by
   decide +kernel
 
-/-- The three refuted patterns are not `Printable`; and the two restrictions of the proof exclude trees that do round-trip
-    (a numeric axis inside brackets; adjacent spaces in the printed text). -/
+/-- The three refuted patterns are not `Printable`; the two former restrictions of the proof are lifted: a numeric axis inside
+    brackets, adjacent spaces in the printed text and `......` are `Printable` (and do round-trip). -/
 theorem printable_restrictions :
     (printableOf "[[a b]...]" = false ∧ printableOf "[[......]...]" = false ∧ printableOf "((a + b) -> c)" = false) ∧
-    (printableOf "a [1]" = false ∧ roundTrips "a [1]" = true) ∧
-    (printableOf "a, -> b" = false ∧ roundTrips "a, -> b" = true) := by decide +kernel
+    (printableOf "a [1]" = true ∧ roundTrips "a [1]" = true) ∧
+    (printableOf "a, -> b" = true ∧ roundTrips "a, -> b" = true) ∧
+    (printableOf "b ......" = true ∧ roundTrips "b ......" = true) := by decide +kernel
 
 /-- Round trip *tested* (a `decide` on samples is a test, not a theorem) on descriptions covering every node kind, both
     `move_up` passes and the redundant-bracket pass; the general statement is false (above) and its true part is checked
@@ -411,6 +415,147 @@ theorem printable_restrictions :
 theorem print_parse_samples :
     (["a b c", "a (b c) -> (a b) c", "a [b c] 1, d -> a d", "(a + b) c", "(a -> b) c, d", "(a , b) (c -> d)", "[[a] b] c",
       "a ->", ", a", "", "a... b", "[a...]", "(a b)...", "... a", "b ......"].all roundTrips) = true := by decide +kernel
+
+/-! ### `parse_print_parse`: the normal form of `parse_op`'s output, and the round trip for ALL strings
+
+`print_parse_partial` is about trees; the statements below are about every string `s`.
+
+**Normal form** (`parse_normal_form`).  Every tree that `parseOp` returns satisfies the decidable predicate `NRoot`
+(Proofs/NotationNFDefs.lean): `Op` of one or two non-empty `Args`; below them (grammar `N inBr al`) named axes with a valid
+axis name, numeric axes named `unnamed.<begin_pos>`, `FlattenedAxis` never directly over a `FlattenedAxis`, `Brackets` never
+inside `Brackets`, never directly over `Brackets`, never empty (`ndim ≠ 0`), `Ellipsis` over the anonymous axis or over a tree with
+`ndim ≠ 0`, `ConcatenatedAxis` of at least two axes / flattened axes, `List`s of 0 or ≥ 2 children none of which is a `List`, no
+`Op`/`Args` below the two top levels; and no axis name occurs both inside and outside brackets.  Proved layer by layer:
+`normal_form_parse` (the result of `parse`, with `Op`/`Args` nodes wherever a `List` may stand), `normal_form_move_up` (each of
+the two `move_up` passes returns at least one alternative, every alternative is in the grammar without the lifted node kind),
+`normal_form_brackets` (the redundant-bracket pass removes nested brackets and keeps `ndim`).
+
+**Excluded** (`Excluded t`, decidable).  The normal form contains exactly three kinds of node whose printed form is not
+(faithfully) in the notation — they are created by the passes AFTER `parse`, which is why the parser accepts the source text
+but not the printed text: `Ellipsis` over a `List` (bracket pass: `[[a b]...]`, printed with braces), `Ellipsis` over an
+`Ellipsis` over anything but the anonymous axis (bracket pass: `[[a...]...]`, printed `a......`; `......` itself, an ellipsis over
+`...`, is NOT excluded: it re-parses to the same tree), `FlattenedAxis` over a `ConcatenatedAxis` (first `move_up` pass:
+`((a + b) -> c)`; bracket pass: `[([(a + b)])]`; printed `((a + b))`).  Each comes with a `decide`d witness that it is necessary
+(`excluded_ell_list_necessary`, `excluded_ell_ell_necessary`, `excluded_flat_concat_necessary`).  `Excluded` contains nothing else:
+the former restrictions of `print_parse_partial` (numeric axis inside brackets, adjacent spaces in the printed text, `......`) are
+removed by proof (`former_restrictions_lifted`).
+
+**Round trip** (`parse_print_parse`).  For every string `s`: if `parseOp s = .ok t` and `Excluded t = false`, then `parseOp t.print`
+succeeds with a tree of the same `shape`. -/
+
+/-- Layer 0 of the normal form: every tree returned by `parse` (for any token tree, any positions, either value of
+    `is_parent_composition`) is in the grammar `G true true true`. -/
+theorem normal_form_parse (ts : List Tok) (b e : Nat) (ipc : Bool) (x : Expr) (h : parse ts b e ipc = .ok x) :
+    G true true true x = true :=
+  ((NF.parse_G ts b e ipc).of_eq h).1
+
+/-- Layers 1 and 2: a successful `move_up` pass (`k = .op`: first pass, `k = .args`: second pass) on a tree of the grammar
+    `G ao aa` returns `Op(alts)` / `Args(alts)` with at least one alternative, every alternative in the grammar without the
+    lifted node kind. -/
+theorem normal_form_move_up (k : Lift) (arrows : List Int) (ao aa : Bool) (x y : Expr) (h : G ao aa true x = true)
+    (hm : moveUp k arrows x = .ok y) :
+    ∃ alts b e, y = k.wrap alts b e ∧ alts ≠ [] ∧ ∀ a ∈ alts, G (NF.Lift.ao k ao) (NF.Lift.aa k aa) true a = true := by
+  obtain ⟨alts, b, e, rfl, hne, ha⟩ := (NF.moveUp_G k arrows ao aa x h).of_eq hm
+  exact ⟨alts, b, e, rfl, hne, fun a haa => (ha a haa).1⟩
+
+/-- Layer 3: the redundant-bracket pass maps a tree without `Op`/`Args` nodes into the grammar `N inBr` (no brackets inside
+    brackets) and keeps `ndim`. -/
+theorem normal_form_brackets (x : Expr) (inBr : Bool) (h : G false false true x = true) :
+    N inBr true (traverse inBr x) = true ∧ (traverse inBr x).ndim = x.ndim :=
+  ⟨(NF.traverse_N x inBr h).1, (NF.traverse_N x inBr h).2.1⟩
+
+/-- `parse_normal_form`: **the normal form of `parse_op`'s output**, for every string. -/
+theorem parse_normal_form (s : Str) (t : Expr) (h : parseOp s = .ok t) :
+    NRoot t = true ∧ (conflictNames (occs [] false t)).isEmpty = true := by
+  obtain ⟨h1, h2⟩ := NF.parseOp_NRoot s t h
+  exact ⟨h1, by rw [h2]; rfl⟩
+
+/-- Every result of `parse_op` that is not `Excluded` is `Printable`. -/
+theorem parse_printable (s : Str) (t : Expr) (h : parseOp s = .ok t) (hx : Excluded t = false) : Printable t = true :=
+  printable_of_parseOp s t h hx
+
+/-- On the results of `parse_op`, `Printable` is exactly the complement of `Excluded`: `Excluded` names precisely the trees that
+    `print_parse_partial` does not cover. -/
+theorem parse_printable_iff (s : Str) (t : Expr) (h : parseOp s = .ok t) : Printable t = !Excluded t :=
+  printable_iff_not_excluded s t h
+
+/-- `parse_print_parse`: for EVERY string `s` that `parse_op` accepts with a tree `t` that is not `Excluded`, the printed text
+    `str(t)` is accepted by `parse_op` and yields the same tree up to positions, fresh names and ellipsis ids. -/
+theorem parse_print_parse (s : Str) (t : Expr) (h : parseOp s = .ok t) (hx : Excluded t = false) :
+    ∃ y, parseOp t.print = .ok y ∧ y.shape = t.shape :=
+  print_parse_partial t (parse_printable s t h hx)
+
+/-- The same with the Boolean `roundTrips` of section (d). -/
+theorem parse_print_parse_roundTrips (s : String) (t : Expr) (h : parseOp s.toList = .ok t) (hx : Excluded t = false) :
+    roundTrips s = true := by
+  obtain ⟨y, hy, hs⟩ := parse_print_parse s.toList t h hx
+  simp only [roundTrips, h, hy]
+  rw [← hs]
+  exact Expr.beq_refl _
+
+/-- `Excluded` of the tree of a text (`true` for texts that do not parse). -/
+def excludedOf (s : String) : Bool :=
+  match parseOp s.toList with
+  | .ok t => Excluded t
+  | .error _ => true
+
+/-- Which of the components of `Excluded` hold for the tree of a text:
+    (ellipsis over list, ellipsis over non-anonymous ellipsis, flattened axis over concatenation). -/
+def excludedWhy (s : String) : Option (Bool × Bool × Bool) :=
+  match parseOp s.toList with
+  | .ok t => some (anyNode patEllList t, anyNode patEllEll t, anyNode patFlatConcat t)
+  | .error _ => none
+
+/-- Each of the three excluded patterns is necessary: a text whose tree is excluded by that pattern ALONE and whose printed
+    form does not parse back to the same tree.  (The first is relative to the extracted brace constant.) -/
+theorem excluded_ell_list_necessary :
+    excludedWhy "[[a b]...]" = some (true, false, false) ∧
+      (Einx.Extracted.ellipsisOpen = "{" → roundTrips "[[a b]...]" = false) := by
+  decide +kernel
+
+theorem excluded_ell_ell_necessary :
+    excludedWhy "[[a...]...]" = some (false, true, false) ∧ roundTrips "[[a...]...]" = false := by
+  decide +kernel
+
+/-- `FlattenedAxis` over `ConcatenatedAxis` arises in the first `move_up` pass and in the bracket pass. -/
+theorem excluded_flat_concat_necessary :
+    (excludedWhy "((a + b) -> c)" = some (false, false, true) ∧ roundTrips "((a + b) -> c)" = false) ∧
+    (excludedWhy "[([(a + b)])]" = some (false, false, true) ∧ roundTrips "[([(a + b)])]" = false) := by
+  decide +kernel
+
+/-- The former restrictions of `print_parse_partial` are no longer part of `Excluded`: a numeric axis inside brackets, adjacent
+    spaces in the printed text (`"a,  -> b"`), an ellipsis over `...`. -/
+theorem former_restrictions_lifted :
+    excludedOf "a [1]" = false ∧ excludedOf "[[1] 2] (3 -> [4])" = false ∧ excludedOf "a, -> b" = false ∧
+      excludedOf "(a, -> b) [c]" = false ∧ excludedOf "b ......" = false := by
+  decide +kernel
+
+/-- Non-vacuity of `parse_print_parse`: texts covering every node kind, both `move_up` passes and the bracket pass are not
+    excluded. -/
+theorem not_excluded_samples :
+    (["a b c", "a (b c) -> (a b) c", "a [b c] 1, d -> a d", "(a + b) c", "(a -> b) c, d", "(a , b) (c -> d)", "[[a] b] c",
+      "a ->", ", a", "", "a... b", "[a...]", "(a b)...", "... a", "(a + 1)... [b]... 2", "a (b (c d)) -> , ()",
+      "[a [b]] c", "([a]) [[b]...]", "b ......", "[[...]...]"].all (fun s => !excludedOf s)) = true := by
+  decide +kernel
+
+/-- Non-vacuity of `parse_normal_form` and of the layer theorems: a text that exercises both `move_up` passes with a real
+    distribution (two alternatives), the bracket pass and a numeric axis inside brackets parses, its tree is `NRoot` and not
+    `Excluded`. -/
+example : (match parseOp "(a -> [b [1]]) [c], (d , e)...".toList with
+    | .ok t => NRoot t && !Excluded t && Printable t
+    | .error _ => false) = true := by decide +kernel
+
+example : ∃ y, parseOp "a [b c]... (d + 1) -> a, (d e)".toList = .ok y ∧
+    ∃ z, parseOp y.print = .ok z ∧ z.shape = y.shape :=
+  match h : parseOp "a [b c]... (d + 1) -> a, (d e)".toList with
+  | .ok y => ⟨y, rfl, parse_print_parse _ y h (by
+      have : excludedOf "a [b c]... (d + 1) -> a, (d e)" = false := by decide +kernel
+      simpa only [excludedOf, h] using this)⟩
+  | .error _ => by
+    exfalso
+    have : isOkRes (parseOp "a [b c]... (d + 1) -> a, (d e)".toList) = true := by decide +kernel
+    rw [h] at this
+    cases this
 
 /-! ## Non-vacuity -/
 
